@@ -140,8 +140,6 @@ def run_part(ctx, pym):
                     'theorems rely on the stdlib real-number axioms (ClassicalDedekindReals.sig_forall_dec, sig_not_dec, '
                     'FunctionalExtensionality.functional_extensionality_dep, Classical_Prop.classic); the default-parameter example '
                     'additionally on the primitive integers/floats used by the Interval tactic']
-    vlib.check_props(ctx, 'theories/Props/C01c.v')
-
     checks, labels, cases = [], [], []
 
     def add_case(grid, ax, sg, ns_given, spelling, forced=None, tag='overhang'):
